@@ -92,7 +92,9 @@ def run_ds(c, seed, rec):
   else:
     cfgd = dict(block_size=8, graft_type=1, start_preconditioning_step=c["start"], merge_small_dims_block_size=1,
                 matrix_epsilon=1e-2, beta2=0.5, statistics_compute_steps=c["s"], preconditioning_compute_steps=c["p"],
-                learning_rate=0.1)
+                # a non-zero (coupled) weight decay under the default Nesterov momentum: the warm-up update must be the
+                # grafting optimizer's complete step, decay term included
+                learning_rate=0.1, weight_decay=0.01)
     T = min(24, max(2 * math.lcm(c["s"], c["p"]), c["start"] + 4))
   cfg = R.Cfg(**{k: (tuple(v) if k == "lr_schedule" else v) for k, v in cfgd.items()
                  if k not in ("decay_preconditioning_compute_steps", "end_preconditioning_compute_steps")})
